@@ -198,6 +198,11 @@ def thread_bools(body):
         if t0["t"] == "goto":
             env = _seed_env(body, bl, roots)
             start = t0["target"]
+        elif t0["t"] == "drop" and t0.get("target") is not None:
+            env = _seed_env(body, bl, roots)
+            env = dict(env)
+            _kill(env, t0["place"]["l"], roots)
+            start = t0["target"]
         elif t0["t"] == "call":
             env = _seed_env(body, bl, roots)
             k = _call_knowledge(body, env, t0)
@@ -250,6 +255,11 @@ def thread_bools(body):
                             nxt = tg
                     resolved += 1
                     cur_resolves = True
+            elif t["t"] == "drop" and t.get("target") is not None:
+                # a destructor on the way (the `Some(_)` of a matched value): the duplicated path runs it once as well
+                _kill(env2, t["place"]["l"], roots2)
+                call_dup = copy.deepcopy(t)
+                nxt = t["target"]
             elif t["t"] == "call":
                 k = _call_knowledge(body, env2, t)
                 if k is not None:
